@@ -2,6 +2,7 @@ import Driver.Util
 import Driver.DeployId
 import Driver.Engine
 import Driver.Policy
+import Driver.PolicyTree
 import Driver.Handlers
 import Driver.Version
 import Driver.Validate
@@ -37,6 +38,7 @@ def main (args : List String) : IO UInt32 := do
   | ["engine"] => Drv.loop stdin Drv.Engine.step {}; return 0
   | ["slots"] => Drv.loop stdin Drv.Slots.step {}; return 0
   | ["policy"] => Drv.loop stdin Drv.Policy.step (); return 0
+  | ["policytree"] => Drv.loop stdin Drv.PolicyTree.step (); return 0
   | ["handlers"] => Drv.loop stdin Drv.Handlers.step (); return 0
   | ["version"] => Drv.loop stdin Drv.Version.step (); return 0
   | ["validate"] => Drv.loop stdin Drv.Validate.step (); return 0
